@@ -260,13 +260,16 @@ def build_replay(exe, base, idx, fam, mode):
 
 
 def pregen():
+    """returns (composition, refusal message or None)"""
+    refused = None
     try:
         res = KF.translate(C.REPO)
-        KF.write_coq(res, os.path.join(C.COQ, "gen"), C.REPO)
     except KF.Refuse as e:
-        raise C.CheckError("tools/C06_keyfields.py refuses the key composition found under %s (the C++ no longer has the "
-                           "`hash(a) ^ b ^ c` / kernelPropsHash shape the translator understands): %s" % (C.REPO, e))
-    return res
+        refused = ("tools/C06_keyfields.py refuses the key composition found under %s (the C++ no longer has the "
+                   "`hash(a) ^ b ^ c` / kernelPropsHash shape the translator understands): %s" % (C.REPO, e))
+        res = KF.reference()      # keep searching for a failing input with the reference composition
+    KF.write_coq(res, os.path.join(C.COQ, "gen"), C.REPO)
+    return res, refused
 
 
 def setup():
@@ -278,9 +281,12 @@ def setup():
 def run(run, tier, seed, replay_case=None):
     C.build_lib(FLAV)
     exe = C.build_driver(PROP, flavour=FLAV)
-    shape = pregen()
+    shape, refused = pregen()
     pr = C.coq_properties(PROP, extra_targets=["C06/Extract.vo"],
                           gen_targets=["gen/C06_KeyFields.vo", "gen/C06_KeyChecks.vo"])
+    if refused:
+        pr["failures"].append(refused)
+        pr["discharged"] = 0
     run.add_proof(pr, CHECKER)
     run.coverage["trusted_base"] = TRUSTED
     model = C.build_model(PROP)
@@ -303,7 +309,7 @@ def run(run, tier, seed, replay_case=None):
         known_before = C.load_known_findings
         C.load_known_findings = lambda prop: known_before(prop) + extra_known()
         try:
-            prop_fails, corr = d.judge(cases, I, R, S, proof_failures=[])
+            prop_fails, corr = d.judge(cases, I, R, S, proof_failures=[], max_report=6)
         finally:
             C.load_known_findings = known_before
 
